@@ -9,12 +9,14 @@ ENTRY = {
         "AGV.C15.builtin_lang_iff",
         "AGV.C15.fromPath_precedence",
         "AGV.C15.langGlobs_order_dependent_counterexample",
+        "AGV.C15.langGlobs_sorted_order_irrelevant",
         "AGV.C15.langGlobs_order_irrelevant_partial",
         "AGV.C15.effective_severity_spec",
         "AGV.C15.effective_severity_doc_counterexample",
         "AGV.C15.effective_severity_spec_partial",
         "AGV.C15.applies_iff",
         "AGV.C15.walker_filter_agrees",
+        "AGV.C15.walker_filter_alias_counterexample",
         "AGV.C15.exit_iff_error",
         "AGV.C15.exit_load_error",
     ],
@@ -32,7 +34,7 @@ ENTRY = {
     ],
 }
 MANIFEST = {
-    "text": "Lean theorems over the executable model of rule selection, for every project, command line and path: applies_iff (a rule is handed to the scan of a document of a file iff it is a project rule kept by --filter, its effective severity is not off, its language is the file's language (language globs, then custom, then built-in extension) or one embedded in it, a `files` glob matches when present and no `ignores` glob matches), effective_severity_spec (flag naming the rule > bare flag > own severity; weakest of several wins; exact characterisation of the implemented reading, with the documented reading proved under NoMixedFlags and refuted by a concrete witness for `--error --error=ID`), exit_iff_error (exit != 0 iff load error (2: filter selects nothing, 9: bad glob) or an unsuppressed finding of effective severity error / an unused suppression raised to error), ext_table_functional (no extension claimed by two built-in languages, by kernel evaluation over the table regenerated from the real functions), walker_filter_agrees (the walker's type filter never hides a file from a rule that applies to it), langGlobs order: hash-order dependence for overlapping globs (counter-example, confirmed on the CLI) and independence otherwise. The glob engines, the --filter regex and the matcher are parameters; the correspondence instantiates them with the real globset / ignore::types / regex and compares RuleCollection::for_path in-process and `sg scan --json=stream` on generated projects (rule ids and counts per file, exit code) with the model.",
-    "note": "Trusted: Lean kernel + 3 standard axioms; harness/driver/check.py glue; globset, ignore (walker and types), regex, tree-sitter as parameters. Known findings: bare --SEV is lost when --SEV=ID also occurs; overlapping languageGlobs make the file language depend on the hash seed (FIX_H21 patch sorts the entries).",
+    "text": "Lean theorems over the executable model of rule selection, for every project, command line and path: applies_iff (a rule is handed to the scan of a document of a file iff it is a project rule kept by --filter, its effective severity is not off, its language is the file's language (language globs, then custom, then built-in extension) or one embedded in it, a `files` glob matches when present and no `ignores` glob matches), effective_severity_spec (flag naming the rule > bare flag > own severity; weakest of several wins; exact characterisation of the implemented reading, with the documented reading proved under NoMixedFlags and refuted by a concrete witness for `--error --error=ID`), exit_iff_error (exit != 0 iff load error (2: filter selects nothing, 9: bad glob) or an unsuppressed finding of effective severity error / an unused suppression raised to error), ext_table_functional (no extension claimed by two built-in languages, by kernel evaluation over the table regenerated from the real functions), walker_filter_agrees (the walker's type filter never hides a file from a rule that applies to it), langGlobs: the registered vector and hence the language of every path is invariant under permutation of the languageGlobs map now that register_impl sorts by key (langGlobs_sorted_order_irrelevant; the unsorted registration is refuted by langGlobs_order_dependent_counterexample); walker_filter_agrees needs that no two languageGlobs keys name the same language (walker_filter_alias_counterexample: get_types only uses the first entry of a language). The glob engines, the --filter regex and the matcher are parameters; the correspondence instantiates them with the real globset / ignore::types / regex and compares RuleCollection::for_path in-process and `sg scan --json=stream` on generated projects (rule ids and counts per file, exit code) with the model.",
+    "note": "Trusted: Lean kernel + 3 standard axioms; harness/driver/check.py glue; globset, ignore (walker and types), regex, tree-sitter as parameters. Known findings: bare --SEV is lost when --SEV=ID also occurs; with two languageGlobs keys for one language the walker's type filter only contains the globs of the first. H21 (hash-order dependent language for overlapping languageGlobs) is repaired by 1c5d0c8.",
     "technique": "Lean 4 proof over hand-written executable model + separate relational spec + differential correspondence (in-process RuleCollection with real globset; real CLI on generated projects, one process per project) + generated extension table checked by `decide +kernel`",
 }
